@@ -42,7 +42,8 @@ ASSUMPTIONS = [
     'only modified through PulseStorage (cached objects are in the backend)',
 ]
 
-ERR = {'clash': 'EClash', 'unser': 'EUnser', 'missing': 'EMissing'}
+# 'recursion' arises at the same decision point as a clash (loading the stored object for the identity check)
+ERR = {'clash': 'EClash', 'unser': 'EUnser', 'missing': 'EMissing', 'recursion': 'EClash'}
 BACKEND = {'dict': 'BDict', 'fs': 'BFs', 'zip': 'BZip', 'cfs': 'BFs'}
 
 
